@@ -1055,18 +1055,12 @@ func main() {
 	bigStream("limit", tx.Padded, 0, []pspec{{limit, 0}, small()})
 	bigStream("limit", tx.Abridged, 0, []pspec{{8, 1}, {limit, 2}, {12, 3}})
 	bigStream("limit", tx.Intermediate, 0, []pspec{{limit + 4, 0}, small()})
-	if c.Thorough() {
-		for cid := 0; cid < 4; cid++ {
-			for _, sz := range []int{limit - 16, limit - 12, limit - 8, limit - 4, limit, limit + 4} {
-				bigStream("limit", cid, int64(c.Rng.Intn(3)), []pspec{{sz, 0}, small()})
-			}
-		}
-		for _, last := range []int{1, 2, 3} {
-			bigStream("limit", tx.Padded, 0, []pspec{{limit, last}, small()})
-			bigStream("limit", tx.Padded, 0, []pspec{{limit - 4, last}, {limit - 4, 0}})
-		}
-		bigStream("limit-stream", tx.Intermediate, 0, []pspec{{8, 1}, {limit, 2}, {12, 3}})
-		bigStream("limit-stream", tx.Full, 5, []pspec{{8, 1}, {limit - 12, 2}, {12, 3}})
+	if c.Thorough() { // a 16 MiB frame costs seconds under -race (tens of seconds on a loaded machine): a handful more
+		bigStream("limit", tx.Full, 1, []pspec{{limit, 0}, small()})
+		bigStream("limit", tx.Intermediate, 0, []pspec{{limit, 0}, small()})
+		bigStream("limit", tx.Abridged, 0, []pspec{{limit + 4, 0}, small()})
+		bigStream("limit", tx.Padded, 0, []pspec{{limit, 1}, small()})
+		bigStream("limit", tx.Padded, 0, []pspec{{limit - 4, 3}, {limit - 4, 0}})
 	}
 	phase("limit")
 	// ---------- writer errors on small payloads (Coq-checked) ----------
@@ -1078,7 +1072,7 @@ func main() {
 
 	// ---------- streams of valid frames ----------
 	boundary := []int{496, 500, 504, 508, 512, 516}
-	ns := c.N(400, 10000)
+	ns := c.N(400, 3000)
 	for i := 0; i < ns; i++ {
 		cid := i % 4
 		seq := int64(0)
@@ -1117,13 +1111,13 @@ func main() {
 	}
 	phase("streams")
 	// medium payloads (Go oracle only): across the 64 KiB chunk size
-	for i := 0; i < c.N(8, 200); i++ {
+	for i := 0; i < c.N(8, 60); i++ {
 		bigStream("stream-medium", i%4, 0, []pspec{{4 * c.Rng.Range(2, 50), c.Rng.Intn(256)}, {4 * c.Rng.Range(1<<14, 1<<17), c.Rng.Intn(256)}, {8, c.Rng.Intn(256)}})
 	}
 
 	phase("medium")
 	// ---------- server-side detection ----------
-	for i := 0; i < c.N(120, 3000); i++ {
+	for i := 0; i < c.N(120, 800); i++ {
 		cid := i % 4
 		var wire bytes.Buffer
 		wire.Write(headerOf(cid))
@@ -1148,7 +1142,7 @@ func main() {
 			accept("accept:raw", append(append([]byte{}, f...), c.Rng.Bytes(t)...), -1, nil)
 		}
 	}
-	for i := 0; i < c.N(60, 2000); i++ {
+	for i := 0; i < c.N(60, 600); i++ {
 		accept("accept:random", c.Rng.Bytes(c.Rng.Range(0, 40)), -1, nil)
 	}
 
@@ -1161,7 +1155,7 @@ func main() {
 	}
 	// ---------- listener with an explicit codec (Codec.ReadHeader) ----------
 	for cid := 0; cid < 4; cid++ {
-		for r := 0; r < c.N(6, 200); r++ {
+		for r := 0; r < c.N(6, 40); r++ {
 			var wire bytes.Buffer
 			wire.Write(headerOf(cid))
 			w := tx.NewCodec(cid, 0)
@@ -1184,7 +1178,7 @@ func main() {
 	}
 	// ---------- with obfuscation: obfuscated2 client -> TCP obfuscated listener with auto-detection ----------
 	for cid := 0; cid < 3; cid++ {
-		for r := 0; r < c.N(4, 100); r++ {
+		for r := 0; r < c.N(4, 60); r++ {
 			var ps [][]byte
 			for k := c.Rng.Range(1, 4); k > 0; k-- {
 				n := 4 * c.Rng.Range(2, 40)
@@ -1198,7 +1192,7 @@ func main() {
 	}
 	// ---------- codec over obfuscated2 over FakeTLS ----------
 	for cid := 0; cid < 3; cid++ {
-		for r := 0; r < c.N(5, 150); r++ {
+		for r := 0; r < c.N(5, 40); r++ {
 			var ps [][]byte
 			for k := c.Rng.Range(1, 4); k > 0; k-- {
 				n := 4 * c.Rng.Range(2, 30)
@@ -1218,7 +1212,7 @@ func main() {
 	}
 	// ---------- concurrent senders ----------
 	for cid := 0; cid < 4; cid++ {
-		for r := 0; r < c.N(2, 20); r++ {
+		for r := 0; r < c.N(2, 8); r++ {
 			concurrent(cid, 8, c.Rng.Range(3, 6))
 		}
 	}
